@@ -13,12 +13,12 @@ ALL_CHECKS = {
     "C02": {
         "technique": "exhaustive byte-string enumeration + proptest-generated corruptions/prefixes with a decode->re-encode identity oracle; libFuzzer target wire_decode in the thorough tier",
         "text": "Every accepted datagram is re-encoded without limit and compared with the input; only a trailing marker and the payload of a 0.00 message may be dropped, and the cut point is cross-checked with the reference parser. Exhaustive: 8 header templates x all tails of <= 2 (quick) / <= 3 (thorough) bytes, every option header byte x every 8-bit and (selected) 16-bit extension value, cumulative-number boundary shapes; plus every prefix and single-byte substitution of generated well-formed messages and random datagrams.",
-        "note": TB + " Parser panics are counted and left to C03. Overflow-checks on and off.",
+        "note": TB + " Parser panics are counted and left to C03. Overflow-checks on and off and the udp feature set; datagrams of up to 200 kB and one option number repeated up to 70000 times are among the directed cases.",
     },
     "C03": {
         "technique": "differential testing against an independent three-valued RFC 7252 reference parser over exhaustive byte-string families, generated corruptions and random datagrams, with panic capture; libFuzzer target wire_decode in the thorough tier",
         "text": "from_bytes is compared with a reference parser that answers must-accept(fields) / must-reject(reason) / either; an accepted datagram must carry exactly the grammar's fields, a panic is always a violation. Same generators as C02; every reject reason is hit thousands of times. Stricter RFC-conformant behaviour (rejecting version != 1, empty payload after the marker, content in 0.00) is never reported.",
-        "note": TB + " Which MessageError variant is returned is not compared. Overflow-checks on (overflow = panic) and off (overflow = wrong fields).",
+        "note": TB + " Which MessageError variant is returned is not compared. Overflow-checks on (overflow = panic) and off (overflow = wrong fields), the udp feature set, and an unoptimised build with 2 MiB stacks (recursion) in both tiers.",
     },
     "C04": {
         "technique": "property-based testing: (message, limit) pairs constructed to land on limit-1/limit/limit+1 via a reference length function, oracle success <=> exact RFC wire length <= limit; the same cases in an AddressSanitizer build of the harness (quick and thorough) + Miri and libFuzzer wire_encode (thorough) for the memory-safety clause",
@@ -48,7 +48,7 @@ ALL_CHECKS = {
     "C09": {
         "technique": "model-based property testing: generated upload plans (body, block size, duplicates, abandoned predecessor) against the real handler, oracle = reassembled body equality, response codes/options and application call count",
         "text": "Every non-final block must be answered 2.31 with an echoed Block1 without reaching the application; the final block reaches it once with the exact body; oversized un-negotiated requests get 4.13 with a size hint (with an 'either' zone for the handler's 12-byte slack).",
-        "note": TB + " One open known finding (duplicate delivery of the final block) is excluded by construction from the main search and reproduced by a directed case.",
+        "note": TB + " One open known finding (duplicate delivery of the final block) is excluded by construction from the main search and reproduced by a directed case. Budgets go up to 1280 bytes in most cases and up to about 5000 in the rest (the statement does not bound them).",
     },
     "C10": {
         "technique": "property-based testing over (budget, overhead, client size) configurations with exhaustive bands around every power-of-two threshold; oracle = encoded lengths measured by the reference encoder and block-size rules",
@@ -88,7 +88,7 @@ ALL_CHECKS = {
     "C17": {
         "technique": "exhaustive enumeration of all strings <= 6 (quick) / <= 8 (thorough) over a structural alphabet + proptest random/prefix inputs, with panic capture, progress/substring/ordering invariants and a to_cow == to_string differential; libFuzzer target linkformat_parse (thorough)",
         "text": "Parser totality and the agreement of the two unquoting paths are decided on a complete enumeration of short strings and on random longer ones.",
-        "note": TB,
+        "note": TB + " Also run in an unoptimised build with 2 MiB stacks, where recursion the optimiser would turn into a loop overflows the stack; a hard crash is reported as a violation with the in-flight case as replay.",
     },
     "C18": {
         "category": "fault_enumeration",
